@@ -1,7 +1,10 @@
 //! Shared machinery for the /verif property checks (engine, oracles, generators, zoo).
+pub mod curve;
 pub mod engine;
 pub mod gen;
 pub mod modint;
+pub mod tower;
+pub mod toy;
 pub mod zoo;
 
 pub use engine::{fail, Fail, Obs, PropSpec, Rel, Tape, Tier, R};
